@@ -70,15 +70,12 @@ func c09CheckTable(broker *TriggerBroker, ghost []bool, n int) {
 
 // c09Distribute runs one Distribute with symbolic primaries and compares the secondaries
 // of every receiver with the sorted multiset union over its connected sources.
-func c09Distribute(broker *TriggerBroker, ghost []bool, n int, maxprim int) {
+func c09Distribute(broker *TriggerBroker, ghost []bool, n int, maxprim int, cycle string) {
 	primaries := make(map[int]triggerList)
 	lists := make([][]FrameIndex, n)
 	for c := 0; c < n; c++ {
-		cs := string(rune('0' + c))
-		has := vRange("has"+cs, 0, 1) == 1
-		if !has {
-			continue // channels without new data do not appear in the map
-		}
+		// as in ProcessSegments, every channel reports its trigger list each cycle (possibly empty)
+		cs := cycle + string(rune('0'+c))
 		k := vRange("nprim"+cs, 0, maxprim)
 		fr := make([]FrameIndex, k)
 		for i := range fr {
@@ -100,7 +97,7 @@ func c09Distribute(broker *TriggerBroker, ghost []bool, n int, maxprim int) {
 			}
 		}
 		got := sec[r]
-		vCheck(len(got) == len(want), "receiver gets one secondary per primary of each connected source (none if unconnected)")
+		vCheck(len(got) == len(want), "receiver gets one secondary per primary of each connected source in this cycle (none if unconnected)")
 		for i := 0; i+1 < len(got); i++ {
 			vCheck(got[i] <= got[i+1], "secondaries are in frame order")
 		}
@@ -113,7 +110,7 @@ func c09Distribute(broker *TriggerBroker, ghost []bool, n int, maxprim int) {
 			for _, x := range want {
 				cw += vB2I(x == v)
 			}
-			vCheck(cg == cw, "secondary frames are exactly the connected sources' primary frames")
+			vCheck(cg == cw, "secondary frames are exactly the connected sources' primary frames of this cycle")
 		}
 	}
 }
@@ -126,7 +123,8 @@ func verifC09Broker() {
 	ds.broker = NewTriggerBroker(n)
 	ghost := c09Edits(ds, nil, n, vParam("nedits", 2))
 	c09CheckTable(ds.broker, ghost, n)
-	c09Distribute(ds.broker, ghost, n, vParam("maxprim", 2))
+	c09Distribute(ds.broker, ghost, n, vParam("maxprim", 2), "a")
+	c09Distribute(ds.broker, ghost, n, vParam("maxprim2", 1), "b") // a second processing cycle: nothing carries over
 	vObserve("nconn", int64(ds.broker.nconnections))
 	vWitness("c09broker-end")
 }
@@ -139,7 +137,8 @@ func verifC09Coupling() {
 	ls.broker = NewTriggerBroker(n)
 	ghost := c09Edits(&ls.AnySource, ls, n, vParam("nedits", 2))
 	c09CheckTable(ls.broker, ghost, n)
-	c09Distribute(ls.broker, ghost, n, 1)
+	c09Distribute(ls.broker, ghost, n, 1, "a")
+	c09Distribute(ls.broker, ghost, n, 1, "b")
 	vObserve("nconn", int64(ls.broker.nconnections))
 	vWitness("c09coupling-end")
 }
